@@ -38,6 +38,10 @@ def main():
                 if l.startswith("CAUGHT by:") and "nothing" not in l:
                     caught = json.loads(l.split("CAUGHT by:")[1].strip().replace("'", '"'))
             applies = "patch does not apply" not in p.stdout
+            if applies and "CAUGHT by:" not in p.stdout:
+                results[sid] = {"ran": props, "error": p.stdout[-400:]}
+                print(f"{sid}: ERROR {p.stdout[-200:]!r}", flush=True)
+                return
             results[sid] = {"ran": props, "caught_by": caught, "applies": applies, "seconds": round(time.time() - t0)}
             print(f"{sid}: ran {props} -> caught by {caught}" + ("" if applies else "  (PATCH DOES NOT APPLY)"), flush=True)
         finally:
@@ -51,7 +55,7 @@ def main():
     if only and os.path.exists("/verif/seeded/SWEEP.json"):
         prev = json.load(open("/verif/seeded/SWEEP.json")); prev["results"].update(out["results"]); out = {**prev, "verif_head": out["verif_head"], "repo_head": out["repo_head"]}
     json.dump(out, open("/verif/seeded/SWEEP.json", "w"), indent=1)
-    missed = [s for s, r in out["results"].items() if not r["caught_by"]]
+    missed = [s for s, r in out["results"].items() if not r.get("caught_by")]
     print(f"{len(out['results'])} seeds, {len(missed)} not caught: {missed}")
 
 if __name__ == "__main__":
